@@ -59,18 +59,15 @@ def U(*names):
 PROPS = {
     "C01": {
         "level": "proof", "verus": U("partition", "objrecv", "ringbuffer", "decoders", "blockwriter", "blockencoder", "filedesc"), "kani": KANI_WIRE, "structural": [],
-        "technique": "conjunction of component contracts: Verus (partition both ends, receiver pipeline, FIFO ring, decoders, writers) + Kani codec round trips",
-        "claim": "what contracts decide of the end-to-end statement: refusal of objects above the scheme's wire capacity at add time, the same RFC 5052 partition on "
-                 "both ends, header/FTI/payload-id round trips for every field value, first-copy-wins symbol placement and in-order trimmed write-out, "
-                 "a loss-free FIFO decompression ring, exactly one terminal writer call; each as a discharged obligation on the real code",
+        "technique": "conjunction of component contracts: Verus (FileDesc::new refusal and Z, partition at both ends, sender block cutting, receiver pipeline incl. attach_fdt / create_meta metadata copies, FIFO ring, decoders, writers, receiver registries) + Kani (max_transfer_length within the wire capacity, codec round trips)",
+        "claim": "what contracts decide of the end-to-end statement: refusal of objects above the scheme's wire capacity at add time (and that capacity bound for every E, B); Z announced is accepted by the receiver; the same RFC 5052 partition on both ends; header/FTI/payload-id round trips for every field value; metadata fields of the FDT entry copied one by one into the writer's metadata; first-copy-wins symbol placement and in-order trimmed write-out; an object completes only through an opened writer; a loss-free FIFO decompression ring; exactly one terminal writer call; each as a discharged obligation on the real code",
         "not_covered": ["FEC encode/decode inverses of reed-solomon-erasure / raptorq / raptor-code", "flate2 round trip", "XML serialisation (quick-xml/serde)",
                         "receive-once registry across transfers as a history property", "file contents written by ObjectWriterFS", "mixes of concurrent objects"],
     },
     "C02": {
         "level": "proof", "verus": U("decoders", "blockencoder", "objrecv"), "kani": [], "structural": [],
-        "technique": "Verus contracts: decoder completeness conditions (No-Code, RS) and close-object flag placement on sender and receiver",
-        "claim": "No-Code decodes iff all k source symbols were seen, RS iff k distinct encoding symbols (MDS reconstruct assumed); duplicates never change "
-                 "the counters; the receiver aborts on the B flag only if the object is still incomplete after the flagged packet was processed",
+        "technique": "Verus contracts: decoder completeness conditions (No-Code, RS), close-object flag placement on sender and receiver, progress clauses of the receive pipeline (cached packets replayed, completed blocks at the head of the window written at once, blocks decoded before the FDT written when it is attached)",
+        "claim": "No-Code decodes iff all k source symbols were seen, RS iff k distinct encoding symbols (MDS reconstruct assumed); duplicates never change the counters; the sender sets the close-object flag on the last packet of the last transfer only; the receiver interrupts on the B flag only an object whose FDT is attached and that is still incomplete after the flagged packet was processed; the rest of a compressed stream never fails a complete content",
         "not_covered": ["Raptor / RaptorQ decodability", "loss of FDT packets", "the exhaustive loss-subset quantifier as a history property"],
     },
     "C03": {
@@ -86,15 +83,12 @@ PROPS = {
         "claim": "every parser returns Ok or Err on every byte string up to the stated datagram length (no panic, no overflow); the unbounded extension walk, "
                  "ObjectReceiver::push and everything below it, the ring buffer and partition arithmetic are panic- and overflow-free for all inputs under "
                  "the packet shape the parsers establish; the inflate loop terminates",
-        "not_covered": ["internals of raptorq / raptor-code / reed-solomon-erasure / flate2 / quick-xml on hostile input", "FDT XML attribute values (attach_fdt, a transfer length >= 2^48 from the FDT)",
-                        "real heap growth", "wall-clock"],
+        "not_covered": ["internals of raptorq / raptor-code / reed-solomon-erasure / flate2 / quick-xml on hostile input", "real heap growth", "wall-clock"],
     },
     "C06": {
         "level": "proof", "verus": U("getext", "ntp"), "kani": KANI_WIRE, "structural": [],
         "technique": "Kani/CBMC full-domain harnesses on the real codecs against decoders written from the RFC text; Verus for the extension walk and NTP arithmetic",
-        "claim": "LCT header push/parse equal an RFC 5651 decoder written from the RFC text for every field value (CCI 0 in the quick tier, full 128 bit in the thorough tier) "
-                 "and every datagram of 4..48 bytes; EXT_FDT/EXT_CENC layouts; six EXT_FTI and six payload-id layouts per RFC 5445/5510/6330/5053 with round trips over the full field domains; "
-                 "unknown and long extensions skipped (unbounded); NTP conversion exact in seconds and to the microsecond",
+        "claim": "LCT header push/parse equal an RFC 5651 decoder written from the RFC text for every field value (CCI 0 in the quick tier, full 128 bit in the thorough tier) and every datagram of 4..48 bytes; EXT_FDT / EXT_CENC / EXT_TIME layouts (EXT_TIME against an RFC decoder for every slice of 4..20 bytes, incl. the SCT-High-only form); six EXT_FTI and six payload-id layouts per RFC 5445/5510/6330/5053 with round trips over the full field domains; unknown and long extensions skipped (unbounded); NTP conversion to the nearest microsecond",
         "not_covered": ["new_alc_pkt composition of several extensions in one packet beyond the 40-byte datagram harness"],
     },
     "C07": {
@@ -106,9 +100,9 @@ PROPS = {
     },
     "C08": {
         "level": "proof", "verus": U("decoders", "blockencoder"), "kani": KANI_WIRE, "structural": [],
-        "technique": "Verus contracts on Block::read / BlockEncoder::read; Kani bounded harnesses for shard slicing (iterator adapters)",
-        "claim": "symbols of a block leave in shard order, each once; the close-object flag expression; A flag only in the close-session packet; shard slicing bounded",
-        "not_covered": ["Raptor / RaptorQ shards", "the per-transfer history (every symbol of every block) as a whole"],
+        "technique": "Verus contracts on Block::read, all of BlockEncoder, the Raptor / RaptorQ encoder wrappers (shard counts and ESI order against opaque stand-ins of the third-party encoders); Kani bounded harnesses for No-Code / RS shard slicing; native search of the shard bytes of the two third-party encoders in every tier",
+        "claim": "symbols of a block leave in shard order, each once; blocks are opened in increasing SBN and drained round robin; k source shards then exactly the configured number of repair shards, ESI == index, for Raptor and RaptorQ; the close-object flag only on the last packet of the last transfer or on the forced-close packet; A flag only in the close-session packet; No-Code / RS shard slicing bounded",
+        "not_covered": ["byte content of Raptor / RaptorQ repair symbols (third-party encoders)", "the per-transfer history (every symbol of every block) as one statement"],
     },
     "C09": {
         "level": "proof", "verus": U("objrecv", "blockwriter"), "kani": [], "structural": ["s_writer_calls_only_in_contracted_functions"],
@@ -119,8 +113,8 @@ PROPS = {
     },
     "C10": {
         "level": "proof", "verus": U("fdtsched"), "kani": KANI_WIRE, "structural": [],
-        "technique": "Verus contracts on Fdt::publish / expiry thresholds; Kani layout harness for EXT_FDT",
-        "claim": "instance id arithmetic modulo 2^20, the queued instance carries the old id, republish thresholds; EXT_FDT carries id and version",
+        "technique": "Verus contracts on Fdt::{new,publish,get_fdt_instance,to_xml,current_fdt_will_expire,get_next_fdt_transfer}, on the FDT <-> Oti attribute conversions, on the cache-directive conversions in both directions; Kani layout harness for EXT_FDT",
+        "claim": "instance id arithmetic modulo 2^20 (start id masked), the queued instance carries the old id and an Expires of the publication instant plus the configured duration, republication at expiry at the latest and before it for durations >= 1 s, never while an instance is queued; FEC OTI attributes <-> Oti in both directions incl. saturation; cache directive sender -> FDT -> receiver to whole seconds; EXT_FDT carries id and version",
         "not_covered": ["XML well-formedness and escaping (quick-xml/serde trusted)", "one id never denotes two contents across the wrap (history)", "groups / ETag beyond field copies"],
     },
     "C11": {
@@ -139,15 +133,14 @@ PROPS = {
     "C13": {
         "level": "proof", "verus": U("sendsched", "fdtsched", "blockencoder"), "kani": [], "structural": ["s_sender_read_priority_order", "s_sender_new_session_count"],
         "technique": "Verus contracts on round-robin rotation, FIFO admission and the interleave window; structural obligations on the BTreeMap loop",
-        "claim": "round-robin index arithmetic, first eligible entry admitted, at most interleave_blocks blocks open and opened in increasing SBN",
+        "claim": "round-robin index arithmetic (every session polled at most once per call, first packet wins), first eligible entry admitted in queue order, at most max(1, interleave_blocks) blocks open, opened in increasing SBN and served round robin",
         "not_covered": ["strict priority across calls (global scheduling history)"],
     },
     "C14": {
         "level": "proof", "verus": U("timing", "sendsched"), "kani": [], "structural": [],
         "technique": "Verus contracts over an axiomatised std::time model (nanosecond counts)",
-        "claim": "eligibility never before the start time nor before the carousel gap; pacing clock advances by exactly one tick per packet and the i-th packet is not before start + i*tick; "
-                 "init is total over the degenerate inputs listed",
-        "not_covered": ["each due packet goes out at the first poll at or after its due time (composed scheduler)", "tick >= target/packets (float quotient only bounded from above)"],
+        "claim": "eligibility never before the start time nor before the carousel gap; pacing clock advances by exactly one tick per packet, the i-th packet is not before start + i*tick, and a packet that is due (clock <= now, no FDT instance pending) is sent at this poll; init is total over the degenerate inputs listed",
+        "not_covered": ["interaction with queue priorities across calls (composed scheduler)", "tick >= target/packets (float quotient only bounded from above)"],
     },
     "C15": {
         "level": "proof", "verus": U("toi"), "kani": KANI_WIRE, "structural": ["s_toi_field_copies"],
@@ -159,27 +152,26 @@ PROPS = {
     "C17": {
         "level": "proof", "verus": U("objrecv", "receiver"), "kani": [], "structural": [],
         "technique": "Verus accounting invariants (ghost sums over the packet cache and the window of block decoders)",
-        "claim": "cache_size equals the cached bytes and the cache refuses beyond the limit; a block is allocated only within the limit or among the first two; the window of block decoders grows by a bounded amount per packet; "
-                 "counters never under-count; terminal operations release blocks and cache; the error list respects its configured length",
+        "claim": "cache_size equals the cached bytes and the cache refuses beyond the limit; a block is allocated only within the limit or among the first two; the window of block decoders grows by a bounded amount per packet; counters never under-count; terminal operations release blocks and cache; the error list respects its configured length; only a packet of the object refreshes its activity clock; cleanup releases stalled objects, unfinished FDT instances and idle sessions",
         "not_covered": ["allocations inside FEC decoders and quick-xml", "fdt_current (literal bound 10)", "real heap bytes"],
     },
     "C18": {
         "level": "proof", "verus": U("tsifilter", "multireceiver"), "kani": [], "structural": ["s_session_open_only_on_creation"],
         "technique": "Verus reference-count view of the TSI filter with whole-view postconditions; ghost event trace for listeners",
-        "claim": "the filter accepts iff bypass count > 0 or the (endpoint, TSI) count, exact or source-wildcarded, > 0, for every add/remove history; routing key is (endpoint, TSI)",
+        "claim": "the filter accepts iff bypass count > 0 or the (endpoint, TSI) count, exact or source-wildcarded, > 0, for every add/remove history; routing key is (endpoint, TSI) and the filter is consulted before any state change; listeners see one open per session creation and one close per session end (close-session packet, expiry, drop), never a close without an open",
         "not_covered": ["non-interference between sessions (follows from Rust ownership of the per-key Box<Receiver>; stated, not proved)"],
     },
     "C19": {
         "level": "proof", "verus": U("expiry", "receiver"), "kani": KANI_WIRE, "structural": [],
-        "technique": "Verus contracts over the axiomatised time model; skew-invariance lemma",
-        "claim": "server time estimate == SCT + elapsed for both signs of the offset, invariant under any receiver clock skew; expiry decision and the single Complete -> Expired transition",
+        "technique": "Verus contracts over the axiomatised time model; skew-invariance lemma; Kani EXT_TIME harness (the sender-current-time value handed to the receiver)",
+        "claim": "server time estimate == SCT + elapsed for both signs of the offset, invariant under any receiver clock skew; expiry decision and the single Complete -> Expired transition; an object is attached only through a Complete, unexpired instance and every such instance is offered; with the check disabled nothing is ever Expired; EXT_TIME is decoded per RFC 5651 incl. the SCT-High-only form",
         "not_covered": ["objects arriving before the FDT (history)"],
     },
     "C20": {
         "level": "proof", "verus": U("blockencoder"), "kani": [], "structural": [],
         "technique": "Verus contracts: buffer and stream sources against the same block specification under the documented Read::read contract",
-        "claim": "read_block_buffer and read_block_stream cut the same blocks whatever sizes the reads return; a transfer starts at stream position 0",
-        "not_covered": ["ObjectDataSource::len position restore", "file sources (std::fs)"],
+        "claim": "read_block_buffer and read_block_stream cut the same blocks whatever sizes the reads return; a transfer starts at stream position 0; ObjectDataSource::len is the whole source length whatever the cursor and restores the position; the constructors announce that length",
+        "not_covered": ["ObjectDesc::create_from_file (std::fs)", "the md5 pass over the stream"],
     },
     "C05": {
         "level": "proof", "verus": U("confine"), "kani": [], "structural": ["s_fs_sinks_flow_from_confinement"], "fallback_witness": "confine",
